@@ -10,6 +10,15 @@ accumulation and reset; the kernel values (scipy pdf, Gaussian or covariant) and
 `round(n_sigma*sigma/spacing)` are parameters, taken from the real code path on every case
 (the pdf calls of the real `add_particle_data` are recorded) and contract-checked here.
 
+Every call is issued in one of nine equivalent documented call forms (documented order particle_data, sigma, quantity,
+kernel="gaussian", add=False - hard-coded from the property statement, not read off the code).  Besides single calls,
+histories on ONE long-lived lattice are run: valid calls interleaved with calls that must raise (bad particle first /
+middle / last, bad names, bad sigma); model, generated function and oracle are applied to every step starting from the
+content OBSERVED before it (the code is not atomic on failure - `add=False` wipes before it validates - and the property
+does not ask for that; what it asks is that a failed call does not change what later valid calls do).  A finding that
+disappears on a new object is keyed `instance-reuse[-after-error]-<clause>`, one that disappears with the plain keyword
+call `call-form-<form>/<clause>`; the replay file holds the shrunk history and is run in a new process by --replay.
+
 The oracle (`search`) is independent of the model: sum(grid)*cell_volume against the sum of the
 particles' quantities (support inside), <= for clipped non-negative quantities, add=True against
 old content + fresh smear, add=False against a pre-filled lattice, and permutation of the particles.
@@ -96,22 +105,64 @@ class _Recorder:
         return F()
 
 
-def run_real(case, record=True):
-    """Runs the real add_particle_data. Returns dict(status, grid (flat list), V, kvals, nums, values)."""
+# the documented call: add_particle_data(particle_data, sigma, quantity, kernel="gaussian", add=False)
+# (order and defaults as the property statement / the docstring give them; NOT read off the code under test, so that a
+# signature change which re-binds positional arguments shows as a wrong result)
+DOC_ORDER = ["particle_data", "sigma", "quantity", "kernel", "add"]
+DOC_DEFAULTS = dict(kernel="gaussian", add=False)
+FORMS = ["kw", "kw-reversed", "pos", "pos4", "pos3", "pos2", "pos1", "defaults-pos", "defaults-kw"]
+
+
+def call_args(form, vals):
+    """positional and keyword arguments of one of the equivalent documented call forms"""
+    if form in (None, "kw"):
+        return [], dict(vals)
+    if form == "kw-reversed":
+        return [], {k: vals[k] for k in reversed(DOC_ORDER)}
+    if form == "pos":
+        return [vals[k] for k in DOC_ORDER], {}
+    if form in ("pos4", "pos3", "pos2", "pos1"):
+        n = int(form[3:])
+        return [vals[k] for k in DOC_ORDER[:n]], {k: vals[k] for k in DOC_ORDER[n:]}
+    if form == "defaults-pos":      # trailing arguments that equal their documented default are left out
+        names = list(DOC_ORDER)
+        while names and names[-1] in DOC_DEFAULTS and vals[names[-1]] == DOC_DEFAULTS[names[-1]] \
+                and type(vals[names[-1]]) is type(DOC_DEFAULTS[names[-1]]):
+            names.pop()
+        return [vals[k] for k in names], {}
+    if form == "defaults-kw":       # every argument that equals its documented default is left out, the rest by keyword
+        return [vals[k] for k in DOC_ORDER[:3]], {k: vals[k] for k in DOC_ORDER[3:]
+                                                 if not (vals[k] == DOC_DEFAULTS[k] and type(vals[k]) is type(DOC_DEFAULTS[k]))}
+    raise ValueError("unknown call form " + str(form))
+
+
+def pick_form(rng, case):
+    """every call is issued in one of the equivalent documented forms (kept in the case: replays are exact)"""
+    if "form" not in case:
+        case["form"] = rng.choice(FORMS)
+    return case
+
+
+def run_real(case, record=True, lattice=None):
+    """Runs the real add_particle_data (on a new object, or on the long-lived `lattice` of a session) in the call form
+    case["form"]. Returns dict(status, grid (flat list), V, kvals, nums, values)."""
     import importlib
     L3 = importlib.import_module("sparkx.Lattice3D")
-    lat = make_lattice(case["lattice"])
-    if case.get("grid") is not None:
+    lat = lattice if lattice is not None else make_lattice(case["lattice"])
+    if lattice is None and case.get("grid") is not None:
         lat.grid_[...] = np.array(case["grid"], dtype=float).reshape(lat.grid_.shape)
     parts = [make_particle(d) for d in case["particles"]]
     rec = _Recorder(L3.multivariate_normal)
     if record:
         L3.multivariate_normal = rec
     status = "ok"
+    args, kwargs = call_args(case.get("form"), dict(particle_data=parts, sigma=case["sigma"], quantity=case["quantity"],
+                                                    kernel=case["kernel"], add=case["add"]))
     try:
         with np.errstate(all="ignore"):
-            lat.add_particle_data(parts, case["sigma"], case["quantity"], kernel=case["kernel"], add=case["add"])
-    except (ValueError, TypeError, ZeroDivisionError, OverflowError, FloatingPointError) as e:
+            lat.add_particle_data(*args, **kwargs)
+    except (ValueError, TypeError, ZeroDivisionError, OverflowError, FloatingPointError, ArithmeticError, AttributeError,
+            KeyError, IndexError) as e:
         status = "err:" + type(e).__name__
     finally:
         if record:
@@ -119,11 +170,22 @@ def run_real(case, record=True):
     nums = []
     for ax, ns in (("x", lat.n_sigma_x_), ("y", lat.n_sigma_y_), ("z", lat.n_sigma_z_)):
         sp = getattr(lat, f"spacing_{ax}_")
-        nums.append(round(ns * case["sigma"] / sp))
+        try:
+            nums.append(round(ns * case["sigma"] / sp))
+        except (ValueError, OverflowError, TypeError):
+            nums.append(None)       # invalid sigma: no temporary lattice
+    def _num(p, a):
+        try:
+            return float(getattr(p, a))
+        except Exception:
+            return float("nan")
+    try:
+        values = [quantity_value(p, case["quantity"]) for p in parts]
+    except KeyError:
+        values = None               # invalid quantity name
     return dict(status=status, grid=[float(v) for v in lat.grid_.flatten()], V=float(lat.cell_volume_),
-                kvals=rec.vals, nums=nums, lattice=lat,
-                values=[quantity_value(p, case["quantity"]) for p in parts],
-                seen=[[float(getattr(p, a)) for a in GEN_ATTRS] for p in parts])
+                kvals=rec.vals, nums=nums, lattice=lat, values=values,
+                seen=[[_num(p, a) for a in GEN_ATTRS] for p in parts])
 
 
 def recompute_kernel(lat, d, sigma, kernel, nums):
@@ -477,7 +539,7 @@ def gen_collapsed_case(rng):
 
 def canon(case):
     return json.dumps({k: case[k] for k in ("lattice", "sigma", "kernel", "quantity", "add", "particles")} |
-                      {"grid": case.get("grid")}, sort_keys=True)
+                      {"grid": case.get("grid"), "form": case.get("form", "kw")}, sort_keys=True)
 
 
 # ------------------------------------------------------------------ independent reference for the oracle
@@ -518,16 +580,16 @@ def kernel_defined(case):
     return True
 
 
-def oracle_all(case):
-    """Property C16 on the REAL code, every clause evaluated. Returns a list of (key, what, detail)."""
+def judge_totals(case, real):
+    """conservation / clipping clauses on the outcome `real` of one call whose previous content was case["grid"]"""
     out = []
-    real = run_real(case, record=False)
     V = real["V"]
     vals = real["values"]
     if real["status"] != "ok":
         if not kernel_defined(case):
             return []            # raising is the accepted answer for an undefined kernel
-        return [("raises-on-valid-input", f"add_particle_data raised {real['status']} on a valid input", dict(status=real["status"]))]
+        return [("raises-on-valid-input", f"add_particle_data raised {real['status']} on a valid input "
+                 f"(call form {case.get('form', 'kw')})", dict(status=real["status"]))]
     old = case.get("grid")
     base = math.fsum(old) if (case["add"] and old is not None) else 0.0
     dep = (math.fsum(real["grid"]) - base) * V
@@ -553,17 +615,38 @@ def oracle_all(case):
         if dep > want + 1e-7 * scale or dep < -1e-7 * scale:
             out.append(("clipped-exceeds", f"non-negative quantities, clipped support: deposited {dep!r} not within [0, {want!r}]",
                         dict(deposited=dep, expected_max=want)))
+    return out
+
+
+def judge_content(case, real, fresh):
+    """add=True accumulates / add=False starts from zero: node by node against old content (+) the smear `fresh` of the
+    same particles on an empty lattice"""
+    old = case.get("grid")
+    if old is None:
+        old = [0.0] * len(real["grid"])
+    exp = [(o if case["add"] else 0.0) + f for o, f in zip(old, fresh["grid"])]
+    m = max(1.0, max(abs(e) for e in exp))
+    for idx, (a, b) in enumerate(zip(real["grid"], exp)):
+        if abs(a - b) > 1e-9 * m:
+            return [("add-accumulates" if case["add"] else "no-add-resets",
+                     f"add={case['add']} (call form {case.get('form', 'kw')}): node {idx} holds {a!r}, expected {b!r} "
+                     f"(old content {'+' if case['add'] else 'ignored,'} fresh smear)",
+                     dict(node=idx, observed=a, expected=b))]
+    return []
+
+
+def oracle_all(case):
+    """Property C16 on the REAL code, every clause evaluated. Returns a list of (key, what, detail)."""
+    real = run_real(case, record=False)
+    out = judge_totals(case, real)
+    if real["status"] != "ok" or not kernel_defined(case):
+        return out
+    old = case.get("grid")
     # add=False starts from zero / add=True accumulates: compare node by node with a run on an empty lattice
-    if old is not None:
-        fresh = run_real(dict(case, grid=None, add=False), record=False)
-        exp = [(o if case["add"] else 0.0) + f for o, f in zip(old, fresh["grid"])]
-        m = max(1.0, max(abs(e) for e in exp))
-        for idx, (a, b) in enumerate(zip(real["grid"], exp)):
-            if abs(a - b) > 1e-9 * m:
-                out.append(("add-accumulates" if case["add"] else "no-add-resets",
-                            f"add={case['add']}: node {idx} holds {a!r}, expected {b!r} (old content {'+' if case['add'] else 'ignored,'} fresh smear)",
-                            dict(node=idx, observed=a, expected=b)))
-                break
+    # (an add=True call without previous content is judged too: the call form may mis-bind `add`)
+    if old is not None or case["add"] or case.get("form") not in (None, "kw"):
+        fresh = run_real(dict(case, grid=None, add=False, form="kw"), record=False)
+        out.extend(judge_content(case, real, fresh))
     # order independence: reversed, rotated by one, and (>= 3 particles) first two swapped
     ps = case["particles"]
     if len(ps) >= 2:
@@ -623,6 +706,212 @@ def touches_edge(case):
             if c - num == 0 or c + num == n - 1:
                 return True
     return False
+
+
+# ------------------------------------------------------------------ sessions: one long-lived lattice, failing calls in between
+BAD_KINDS = ["nan-coordinate", "missing-quantity", "massless", "no-momentum", "bad-kernel", "bad-quantity", "bad-sigma"]
+# what the generated function can be asked about (an invalid sigma makes scipy / round raise, which it does not model)
+GEN_EXPRESSIBLE = {"nan-coordinate", "missing-quantity", "massless", "no-momentum", "bad-kernel", "bad-quantity"}
+
+
+def gen_step(rng, lat, sigmas, bad=None):
+    """one call of a session; `bad` = the way it is made invalid (it must then raise), at a random position of the list"""
+    kernel = rng.choice(["gaussian", "covariant"])
+    quantity = rng.choice(QUANTITIES)
+    if bad in ("massless", "no-momentum"):
+        kernel = "covariant"
+    if bad == "missing-quantity":
+        quantity = rng.choice([q for q in QUANTITIES if q in ATTR])
+    sigma = rng.choice(sigmas)
+    n = rng.choice([1, 2, 2, 3]) if bad is None else rng.choice([1, 2, 3, 4])
+    where = rng.choice(["inside", "inside", "touch", "edge", "any"])
+    parts = [gen_particle(rng, lat, sigma, kernel, quantity, where) for _ in range(n)]
+    step = dict(sigma=sigma, kernel=kernel, quantity=quantity, add=rng.random() < 0.5, particles=parts,
+                form=rng.choice(FORMS), expect="ok", bad=None)
+    if bad is None:
+        return step
+    step["expect"], step["bad"] = "raise", bad
+    pos = rng.choice([0, n // 2, n - 1])
+    step["bad_pos"] = pos
+    d = parts[pos]
+    if bad == "nan-coordinate":
+        d[rng.choice("xyz")] = float("nan")
+    elif bad == "missing-quantity":
+        d[ATTR[quantity]] = None
+    elif bad == "massless":
+        d["mass"] = 0.0
+    elif bad == "no-momentum":
+        d[rng.choice(["px", "py", "pz"])] = None
+    elif bad == "bad-kernel":
+        step["kernel"] = rng.choice(["Gaussian", "gauss", "", "covariant ", "lorentz"])
+    elif bad == "bad-quantity":
+        step["quantity"] = rng.choice(["energy", "Energy_density", "", "number", "charge"])
+    elif bad == "bad-sigma":
+        step["sigma"] = rng.choice([float("nan"), 0.0])
+    return step
+
+
+def gen_session(rng, nmax=7):
+    """a history of calls on ONE lattice object: valid calls (add or not, any call form) interleaved with calls that must
+    raise at different points of their particle list; every failing call is followed by at least one valid call"""
+    for _ in range(200):
+        lat = dict(axes=[gen_axis(rng, nmax) for _ in range(3)])
+        if rng.random() < 0.5:
+            lat["n_sigma"] = [rng.choice([0.5, 1, 1.5, 2, 3]) for _ in range(3)]
+        hs = [(a[1] - a[0]) / (a[2] - 1) for a in lat["axes"]]
+        ns = lat.get("n_sigma") or [3, 3, 3]
+        sigmas = []
+        for want in (rng.choice([1, 1, 2]), rng.choice([0, 1])):
+            frac = rng.uniform(0.1, 0.45) if want == 0 else want + rng.uniform(-0.4, 0.4)
+            sigmas.append(frac * hs[0] / ns[0])
+        ok = True
+        for sg in sigmas:
+            nums = [round(s_ * sg / h) for s_, h in zip(ns, hs)]
+            if max(nums) > 2 or (2 * nums[0] + 1) * (2 * nums[1] + 1) * (2 * nums[2] + 1) > 125:
+                ok = False
+        if ok:
+            break
+    steps = []
+    if rng.random() < 0.6:
+        steps.append(gen_step(rng, lat, sigmas))
+    for _ in range(rng.choice([1, 1, 2, 3])):
+        steps.append(gen_step(rng, lat, sigmas, bad=rng.choice(BAD_KINDS)))
+        for _ in range(rng.choice([1, 1, 2])):
+            steps.append(gen_step(rng, lat, sigmas))
+    sess = dict(lattice=lat, steps=steps, family="session")
+    if rng.random() < 0.4:
+        sess["grid"] = _prefill(rng, lat["axes"])
+    return sess
+
+
+def step_case(sess, step, pre):
+    """the call `step` as a single-call case whose previous content is `pre`"""
+    c = dict(lattice=sess["lattice"], grid=list(pre), where="any", family="session")
+    c.update({k: step[k] for k in ("sigma", "kernel", "quantity", "add", "particles", "form")})
+    if step.get("bad") in ("massless", "no-momentum"):
+        c["nan_kernel"] = step["bad"]
+    return c
+
+
+def run_session(sess, record=False):
+    """runs the history on one object; -> per step dict(case, real, pre) (`pre` = content observed before the call)"""
+    lat = make_lattice(sess["lattice"])
+    if sess.get("grid") is not None:
+        lat.grid_[...] = np.array(sess["grid"], dtype=float).reshape(lat.grid_.shape)
+    out = []
+    for step in sess["steps"]:
+        pre = [float(v) for v in lat.grid_.flatten()]
+        case = step_case(sess, step, pre)
+        real = run_real(case, record=record, lattice=lat)
+        out.append(dict(case=case, real=real, pre=pre, step=step))
+    return out
+
+
+def judge_step(case, real):
+    """what the property says about ONE valid call, given the content observed before it: totals, and node by node old
+    content (+) the smear of the same particles on a new empty lattice (plain keyword call)"""
+    out = judge_totals(case, real)
+    if real["status"] == "ok" and kernel_defined(case):
+        fresh = run_real(dict(case, grid=None, add=False, form="kw"), record=False)
+        if fresh["status"] == "ok":
+            out.extend(judge_content(case, real, fresh))
+    return out
+
+
+def classify(sess, idx, rec, finding):
+    """where a failing step of a session comes from: the history of the object, the call form, or the call itself"""
+    key = finding[0]
+    case = rec["case"]
+    alone = run_real(case, record=False)                       # same call, same form, new object holding the same content
+    if key not in [f[0] for f in judge_step(case, alone)]:
+        after_error = any(r["real"]["status"] != "ok" for r in sess["_run"][:idx])
+        return ("instance-reuse-after-error-" if after_error else "instance-reuse-") + key
+    if case.get("form") not in (None, "kw"):
+        kw = dict(case, form="kw")
+        if key not in [f[0] for f in judge_step(kw, run_real(kw, record=False))]:
+            return f"call-form-{case['form']}/{key}"
+    return key
+
+
+def oracle_session(sess):
+    """Property C16 along a history on one object. A call that raises is not judged itself (the property is about calls that
+    return; the code under test is not required to be atomic, and is not: `add=False` wipes before it validates) - but it must
+    not influence what the later valid calls do: every valid call is judged against the content OBSERVED before it.
+    -> list of (key, what, detail, index of the step)"""
+    run = run_session(sess)
+    sess["_run"] = run
+    out = []
+    for idx, rec in enumerate(run):
+        if rec["step"]["expect"] != "ok":
+            continue
+        for f in judge_step(rec["case"], rec["real"]):
+            key = classify(sess, idx, rec, f)
+            hist = ", ".join(f"{i}:{'raised' if r['real']['status'] != 'ok' else 'ok'}" for i, r in enumerate(run[:idx]))
+            out.append((key, f"step {idx} of a history on one lattice [{hist}]: " + f[1], f[2], idx))
+        if out:
+            break
+    sess.pop("_run", None)
+    return out
+
+
+def shrink_session(sess, key):
+    """smallest history that still shows `key` at its last step"""
+    def bad(s):
+        return any(f[0] == key for f in oracle_session(s))
+    fs = [f for f in oracle_session(sess) if f[0] == key]
+    if not fs:
+        return sess
+    cur = dict(sess, steps=list(sess["steps"][:fs[0][3] + 1]))
+    changed = True
+    while changed:
+        changed = False
+        for i in range(len(cur["steps"]) - 1):
+            cand = dict(cur, steps=cur["steps"][:i] + cur["steps"][i + 1:])
+            if bad(cand):
+                cur, changed = cand, True
+                break
+        if changed:
+            continue
+        for i, st in enumerate(cur["steps"]):
+            if len(st["particles"]) > 1:
+                for j in range(len(st["particles"])):
+                    if st.get("bad_pos") == j:
+                        continue
+                    st2 = dict(st, particles=st["particles"][:j] + st["particles"][j + 1:])
+                    if st.get("bad_pos") is not None and j < st["bad_pos"]:
+                        st2["bad_pos"] = st["bad_pos"] - 1
+                    cand = dict(cur, steps=cur["steps"][:i] + [st2] + cur["steps"][i + 1:])
+                    if bad(cand):
+                        cur, changed = cand, True
+                        break
+            if changed:
+                break
+        if not changed and cur.get("grid") is not None:
+            cand = dict(cur, grid=None)
+            if bad(cand):
+                cur, changed = cand, True
+    return cur
+
+
+def canon_session(sess):
+    return json.dumps(dict(lattice=sess["lattice"], grid=sess.get("grid"),
+                           steps=[{k: st.get(k) for k in ("sigma", "kernel", "quantity", "add", "particles", "form", "expect")}
+                                  for st in sess["steps"]]), sort_keys=True)
+
+
+def run_driver_sharded(lines, shards=8):
+    """the Lean driver on several processes (the interpreter is the slow part of the correspondence)"""
+    if len(lines) < 4 * shards:
+        return common.run_driver("C16", lines)
+    from concurrent.futures import ThreadPoolExecutor
+    idx = [list(range(k, len(lines), shards)) for k in range(shards)]
+    with ThreadPoolExecutor(max_workers=shards) as ex:
+        res = list(ex.map(lambda ix: common.run_driver("C16", [lines[i] for i in ix]), idx))
+    out = [None] * len(lines)
+    for ix, r in zip(idx, res):
+        for i, o in zip(ix, r):
+            out[i] = o
+    return out
 
 
 # ------------------------------------------------------------------ correspondence (tie C)
@@ -692,10 +981,15 @@ def correspond(ctx):
                 "0-4 particles placed well inside / support touching the edge node / near the edge / outside, both kernels, "
                 "all five quantities, several sigma and n_sigma, add on pre-filled lattices; non-trivial = at least one "
                 "particle whose temporary lattice has more than one node (num > 0 on some axis), or particles sharing a closest "
-                "node, or add=True on non-empty content; distinct by canonical input")
+                "node, or add=True on non-empty content; distinct by canonical input; every call in one of nine equivalent documented "
+                "call forms (keywords / positional prefixes of particle_data, sigma, quantity, kernel, add / defaults omitted); "
+                "histories on one long-lived lattice: valid calls interleaved with calls that raise (NaN coordinate, missing "
+                "quantity, massless / momentum-less particle for the covariant kernel at first / middle / last position, unknown "
+                "kernel / quantity name, sigma NaN or 0), every valid call judged against the content observed before it")
     cases = []
     for c in corpus():
-        cases.append(c)
+        if "session" not in c:
+            cases.append(c)
     ze = zero_edge_sweep(rng, False)
     cases.extend(ze if ctx.thorough else rng.sample(ze, 24))
     cases.extend(gen_edge_case(rng) for _ in range(ctx.n(30, 500)))
@@ -720,6 +1014,8 @@ def correspond(ctx):
             lin_meta.append(("closest", c, d))
     reals, lines, metas, glines = [], [], [], []
     for c in cases:
+        pick_form(rng, c)
+        ctx.count("call-form/" + c["form"])
         real = run_real(c)
         line, chunks, how = enc_case(c, real)
         check_contract(ctx, c, real, chunks)
@@ -727,9 +1023,50 @@ def correspond(ctx):
         lines.append(line)
         glines.append(enc_gcase(c, real, chunks))
         metas.append(how)
-    outs = common.run_driver("C16", lin_lines + lines + glines)
-    gouts = outs[len(lin_lines) + len(lines):]
+    # histories on one long-lived object: every call (valid or raising) against model and generated function, started
+    # from the content observed before the call
+    s_items, s_lines = [], []
+    for _ in range(ctx.n(10, 160)):
+        sess = gen_session(rng)
+        run = run_session(sess, record=True)
+        ctx.case(("session", canon_session(sess)), any(r["real"]["status"] != "ok" for r in run[:-1]))
+        ctx.count("family/session")
+        ctx.count("session/steps", len(run))
+        for rec in run:
+            c, real, step = rec["case"], rec["real"], rec["step"]
+            ctx.count("session-step/" + (step["bad"] or "valid") + ("" if step["bad"] is None else f"@{'first' if step['bad_pos'] == 0 else 'last' if step['bad_pos'] == len(step['particles']) - 1 else 'middle'}"))
+            ctx.count("call-form/" + c["form"])
+            ctx.count("session-step/" + ("raised" if real["status"] != "ok" else "returned"))
+            if None in real["nums"] or real["values"] is None and step["bad"] != "bad-quantity":
+                continue
+            send_model = step["bad"] is None or step["bad"] in ("massless", "no-momentum")
+            send_gen = step["bad"] is None or step["bad"] in GEN_EXPRESSIBLE
+            if real["values"] is None:
+                real = dict(real, values=[float("nan")] * len(c["particles"]))
+                send_model = False
+            try:
+                line, chunks, how = enc_case(c, real)
+                gline = enc_gcase(c, real, chunks)
+            except Exception:
+                continue
+            if step["bad"] is None:
+                check_contract(ctx, c, real, chunks)
+            if send_model:
+                s_items.append(("model", c, real))
+                s_lines.append(line)
+            if send_gen:
+                s_items.append(("gen", c, real))
+                s_lines.append(gline)
+    outs = run_driver_sharded(lin_lines + lines + glines + s_lines)
+    souts = outs[len(lin_lines) + len(lines) + len(glines):]
+    gouts = outs[len(lin_lines) + len(lines):len(lin_lines) + len(lines) + len(glines)]
     outs = outs[:len(lin_lines) + len(lines)]
+    for (which, c, real), out in zip(s_items, souts):
+        ctx.count(f"session-{which}/" + ("raises" if out.startswith("err") else "ok" if out.startswith("ok") else "bad-op"))
+        bad = compare(c, real, out) if which == "model" else compare_gen(c, real, out)
+        if bad:
+            ctx.brk("correspondence-broken", f"history on one object, {'hand model' if which == 'model' else 'generated function'}: " + bad,
+                    case={k: v for k, v in c.items() if k != "grid"})
     for (meta, out) in zip(lin_meta, outs[:len(lin_lines)]):
         if meta[0] == "lin":
             ax = meta[1]
@@ -788,20 +1125,50 @@ def search(ctx, budget_s):
     def one(case):
         nonlocal n
         n += 1
+        pick_form(rng, case)
         rs = oracle_all(case)
         ctx.case(("oracle", canon(case)), bool(case["particles"]))
         ctx.count("oracle/" + case.get("family", "random"))
+        ctx.count("oracle-call-form/" + case["form"])
+        for r in rs:
+            key = r[0]
+            if case["form"] != "kw" and oracle_check(dict(case, form="kw"), r[0]) is None:
+                key = f"call-form-{case['form']}/{r[0]}"      # the plain keyword call is fine: the call form matters
+            if key in found:
+                continue
+            found.add(key)
+            small = shrink(case, r[0])
+            r2 = oracle_check(small, r[0]) or r
+            ctx.violation(key, r2[1], dict(input=small, detail=r2[2], how_to_replay="./check C16 --replay <this file>"))
+        return rs
+
+    def one_session(sess):
+        nonlocal n
+        n += 1
+        rs = oracle_session(sess)
+        ctx.case(("oracle-session", canon_session(sess)), True)
+        ctx.count("oracle/session")
+        for st in sess["steps"]:
+            ctx.count("oracle-session-step/" + (st["bad"] or "valid"))
         for r in rs:
             if r[0] in found:
                 continue
             found.add(r[0])
-            small = shrink(case, r[0])
-            r2 = oracle_check(small, r[0]) or r
-            ctx.violation(r2[0], r2[1], dict(input=small, detail=r2[2], how_to_replay="./check C16 --replay <this file>"))
+            small = shrink_session(sess, r[0])
+            r2 = next((f for f in oracle_session(small) if f[0] == r[0]), r)
+            ctx.violation(r2[0], r2[1], dict(input=dict(session=small), detail=r2[2], failing_step=r2[3],
+                                             how_to_replay="./check C16 --replay <this file>  (runs the history on a new "
+                                                           "object in a new process)"))
         return rs
 
     for case in corpus():
-        one(case)
+        if "session" in case:
+            one_session(case["session"])
+        else:
+            one(case)
+    # histories on one long-lived object with failing calls in between
+    for _ in range(ctx.n(30, 500)):
+        one_session(gen_session(rng))
     # the input classes in which this code once lost quantity, then random cases
     one(gen_large_scale(rng))
     one(edge_rounding_case())
@@ -895,6 +1262,19 @@ def corpus():
 def replay(ctx, path):
     d = json.loads(open(path).read())
     inp = d.get("input") or (d.get("broken") or [{}])[0].get("case")
+    if inp and "session" in inp:
+        sess = inp["session"]
+        run = run_session(sess)
+        for i, rec in enumerate(run):
+            print(f"[C16] step {i}: {rec['step'].get('bad') or 'valid'} call (form {rec['case']['form']}, add={rec['case']['add']}) "
+                  f"-> {rec['real']['status']}, sum(grid)*V = {math.fsum(rec['real']['grid']) * rec['real']['V']!r}")
+        rs = oracle_session(sess)
+        if rs:
+            print(f"VIOLATION property=C16 replay={path}")
+            print(f"[{rs[0][0]}] {rs[0][1]}")
+            return 1
+        print("[C16] replay: property holds along this history now")
+        return 0
     if not inp or "lattice" not in inp:
         print(f"[C16] replay file names a broken obligation, not an input: {d.get('broken')}")
         return 1
@@ -904,7 +1284,7 @@ def replay(ctx, path):
     line, _, _ = enc_case(inp, real)
     out = common.run_driver("C16", [line])[0]
     diff = compare(inp, real, out)
-    print(f"[C16] real code: status={real['status']} sum(grid)*V={math.fsum(real['grid']) * real['V']!r} quantities={real['values']}")
+    print(f"[C16] real code (call form {inp.get('form', 'kw')}): status={real['status']} sum(grid)*V={math.fsum(real['grid']) * real['V']!r} quantities={real['values']}")
     print(f"[C16] model vs code: {'agree' if diff is None else diff}")
     if r:
         print(f"VIOLATION property=C16 replay={path}")
